@@ -52,6 +52,10 @@ func (c CounterOfferTx) Validate(ctx *action.Context, signedTx action.SignedTx) 
 	if currency.Name != counterOffer.Amount.Currency {
 		return false, errors.Wrap(action.ErrInvalidAmount, counterOffer.Amount.String())
 	}
+	// the amount must not be negative
+	if !counterOffer.Amount.IsValid(ctx.Currencies) {
+		return false, errors.Wrap(action.ErrInvalidAmount, counterOffer.Amount.String())
+	}
 
 	//Check if bid ID is valid
 	if counterOffer.BidConvId.Err() != nil {
